@@ -87,6 +87,9 @@ pub fn run(a: &HashMap<String, String>) -> Value {
     let pats: Value = serde_json::from_str(&std::fs::read_to_string(a.get("patterns").expect("patterns=<file>")).unwrap()).unwrap();
     let ncom = arg_usize(a, "ncom", 4); // commitment index ncom-1 ... ; index `chop` is the chopped one
     let chop = arg_usize(a, "chop", 0);
+    // optional second chopped commitment (two chopped commitments, each opened at its own single point)
+    let chop2 = a.get("chop2").map(|v| v.parse::<usize>().expect("chop2")).unwrap_or(usize::MAX);
+    let is_chop = |c: usize| c == chop || c == chop2;
     let s = var("s");
     // concrete generic points x * omega^r, r in {0, 1, -1, 2}
     let x0 = Fq::from(arg_usize(a, "x", 7) as u64);
@@ -98,14 +101,14 @@ pub fn run(a: &HashMap<String, String>) -> Value {
     // polynomials
     let polys: Vec<Poly> = (0..ncom)
         .map(|c| {
-            let len = if c == chop { 2 * d } else { d };
+            let len = if is_chop(c) { 2 * d } else { d };
             (0..len).map(|i| var(&format!("a{c}_{i}"))).collect()
         })
         .collect();
     let n_piece = (d + 1) as u64; // pieces hold n-1 = d coefficients; H(X) = H0(X) + X^(n-1) H1(X)
     let mut coms: Vec<Vec<Exp<1>>> = vec![];
     for (c, p) in polys.iter().enumerate() {
-        if c == chop {
+        if is_chop(c) {
             coms.push(vec![commit(&p[..d].to_vec(), s), commit(&p[d..].to_vec(), s)]);
         } else {
             coms.push(vec![commit(p, s)]);
@@ -156,10 +159,12 @@ pub fn run(a: &HashMap<String, String>) -> Value {
         }
         // the chopped commitment is opened as G(X) = H0(X) + pt^(n-1) H1(X) with pt its (single) query point
         let mut polys = polys.clone();
-        if let Some(q) = qs.iter().find(|q| q.com == chop) {
-            let sf = pts[q.pt].pow_vartime([n_piece - 1]);
-            let (h0, h1) = (polys[chop][..d].to_vec(), polys[chop][d..].to_vec());
-            polys[chop] = p_add(&h0, &p_scale(&h1, sf));
+        for ch in [chop, chop2] {
+            if let Some(q) = qs.iter().find(|q| q.com == ch) {
+                let sf = pts[q.pt].pow_vartime([n_piece - 1]);
+                let (h0, h1) = (polys[ch][..d].to_vec(), polys[ch][d..].to_vec());
+                polys[ch] = p_add(&h0, &p_scale(&h1, sf));
+            }
         }
         let mut tp = CircuitTranscript::<SymHash>::init();
         let x1: SymF = tp.squeeze_challenge();
@@ -219,7 +224,7 @@ pub fn run(a: &HashMap<String, String>) -> Value {
             .iter()
             .zip(evals.iter())
             .map(|(q, e)| {
-                if q.com == chop {
+                if is_chop(q.com) {
                     let parts: Vec<&Exp<1>> = coms[q.com].iter().collect();
                     VerifierQuery::from_parts(pts[q.pt], CommitmentLabel::Custom("chopped".into()), &parts, *e, n_piece)
                 } else {
